@@ -48,6 +48,27 @@ def run(ctx):
         ctx.ob('2c counted-dereference-decrements', 'K1-must-pass', we.path, 'with ref_counted on, the Dereference arm reaches write_dec_ref', len(dec) == 1, str(dec))
         ctx.ob('2d counted-never-replaces-or-removes-directly', 'K1-must-pass', we.path,
                'with ref_counted on, no direct replace / remove / insert of the value is reachable (removal happens only inside write_dec_ref when the count reaches zero)', not bad, 'reachable: %s' % [we.loc(s) for s in bad])
+        # ... and not merely reachable: with ref_counted on, EVERY success path of the Set / Reference arm increments and every success
+        # path of the Dereference arm decrements (no extra condition under which an accepted operation leaves the count alone)
+        opsw = None
+        for bi in we.normal_blocks():
+            t = we.term(bi)
+            d = lib.switch_def(we, bi)
+            if t['k'] == 'switch' and d and d[2] == 'assign' and d[3]['r']['k'] == 'discr' and 'db::Operation<' in str(we.locals[d[3]['r']['p'][0]]):
+                opsw = bi
+                break
+        ctx.ob('2f0 operation-match-anchor', 'anchor', we.path, 'write_existing_value_plan matches on the operation', opsw is not None, '')
+        if opsw is not None:
+            names = {v['discr']: v['name'] for v in F.adts['db::Operation']['variants']}
+            arms = dict(zip(we.term(opsw)['vals'], we.term(opsw)['ts']))
+            for v, nm in sorted(names.items()):
+                if nm not in ('Set', 'Reference', 'Dereference') or v not in arms:
+                    continue
+                tg = inc if nm != 'Dereference' else dec
+                w = we.find_path([arms[v]], we.return_blocks(), removed=set(tg) | core.error_exit_blocks(we) | {opsw}, removed_edges=rc)
+                ctx.ob('2f counted-%s-always-changes-the-count' % nm, 'K1-must-pass', we.path,
+                       'with ref_counted on, every success path of the %s arm passes %s' % (nm, 'write_inc_ref' if nm != 'Dereference' else 'write_dec_ref'),
+                       w is None and bool(tg), '' if w is None else 'success path that leaves the count alone: ' + lib.short_path(we, w))
     wd = ctx.body('table::ValueTable::write_dec_ref')
     if wd:
         cr = wd.call_sites('table::ValueTable::change_ref')
